@@ -42,6 +42,7 @@ type Anchor struct {
 type Contract struct {
 	Name     string // "Recv.Method" or "Func"
 	Requires []*Clause
+	Serves   []*Clause // "serves [Cnn] text": the function belongs to the code a property quantifies over (no clause of its own)
 	Ensures  []*Clause
 	Modifies []string
 	Loops    map[int]*LoopSpec
@@ -59,7 +60,7 @@ type Contract struct {
 	Params   string // for interface methods / externals: "(p []byte) (n int, err error)"
 }
 
-var clauseRe = regexp.MustCompile(`^(requires|ensures|owns|invariant|decreases|modifies|loop|at|flags|params|assert|reason)\b`)
+var clauseRe = regexp.MustCompile(`^(requires|ensures|owns|serves|invariant|decreases|modifies|loop|at|flags|params|assert|reason)\b`)
 var tagRe = regexp.MustCompile(`^\s*((?:\[[A-Za-z0-9_,\- ]+\]\s*)*)(?:([A-Za-z_][A-Za-z0-9_.\-]*):\s)?`)
 
 // parseContracts extracts all /*@ ... @*/ blocks of a file.
@@ -139,6 +140,9 @@ func parseContractBlock(body, file string, line0 int) (*Contract, error) {
 			curLoop = -1
 		case "ensures":
 			ct.Ensures = append(ct.Ensures, mk(r))
+			curLoop = -1
+		case "serves":
+			ct.Serves = append(ct.Serves, mk(r))
 			curLoop = -1
 		case "owns":
 			c := mk(r)
